@@ -78,50 +78,54 @@ theorem GoodAttrsP.outM {K : Nat} {st : St} (hr : RM K st) : ∀ {as : List Attr
 
 theorem GoodM.serialize_eq {K : Nat} {st : St} (hr : RM K st) :
     ∀ (v : View) (t : RState), GoodM (EM K st) (ShowMemo K st) v t →
-      (∀ e ∈ effsOf t, (st.rs.get e).chan = false) → serialize t = render st.env v := by
+      v.coreS = true → (∀ e ∈ effsOf t, (st.rs.get e).chan = false) → serialize t = render st.env v := by
   intro v
   induction v with
-  | text s => intro t h _; cases t <;> simp only [GoodM] at h; simp [RView.serialize, render, h]
-  | unit => intro t h _; cases t <;> simp only [GoodM] at h; simp [RView.serialize, render]
+  | text s => intro t h _ _; cases t <;> simp only [GoodM] at h; simp [RView.serialize, render, h]
+  | unit => intro t h _ _; cases t <;> simp only [GoodM] at h; simp [RView.serialize, render]
   | elem tag attrs kid ih =>
-    intro t h hn
+    intro t h hc hn
     cases t <;> simp only [GoodM] at h
     next n tag' as k =>
+      simp only [View.coreS] at hc
       simp only [RView.serialize, render]
       rw [h.2.1.outM hr (fun e he => hn e (by simp [effsOf, he])),
-        ih k h.2.2 (fun e he => hn e (by simp [effsOf, he])), h.1]
+        ih k h.2.2 hc (fun e he => hn e (by simp [effsOf, he])), h.1]
   | seq a b iha ihb =>
-    intro t h hn
+    intro t h hc hn
     cases t <;> simp only [GoodM] at h
     next sa sb =>
+      simp only [View.coreS, Bool.and_eq_true] at hc
       simp only [RView.serialize, render]
-      rw [iha sa h.1 (fun e he => hn e (by simp [effsOf, he])),
-        ihb sb h.2 (fun e he => hn e (by simp [effsOf, he]))]
+      rw [iha sa h.1 hc.1 (fun e he => hn e (by simp [effsOf, he])),
+        ihb sb h.2 hc.2 (fun e he => hn e (by simp [effsOf, he]))]
   | dynText x =>
-    intro t h hn
+    intro t h _ hn
     cases t <;> simp only [GoodM] at h
     next e x' n last =>
       have := h.2.cur_idle hr (hn e (by simp [effsOf]))
       simp only [RView.serialize, render, this]
   | either c a b iha ihb =>
-    intro t h hn
+    intro t h hcs hn
     cases t <;> simp only [GoodM] at h
     next e c' a' b' left inner =>
+      simp only [View.coreS, Bool.and_eq_true] at hcs
       have hc := h.2.2.2.1.cur_idle hr (hn e (by simp [effsOf]))
       simp only [RView.serialize, render]
       cases hl : left with
       | true =>
         rw [hl] at hc
         rw [← hc]; simp only [if_true]
-        exact iha inner (h.2.2.2.2.1 hl) (fun e he => hn e (by simp [effsOf, he]))
+        exact iha inner (h.2.2.2.2.1 hl) hcs.1 (fun e he => hn e (by simp [effsOf, he]))
       | false =>
         rw [hl] at hc
         rw [← hc]; simp only [Bool.false_eq_true, if_false]
-        exact ihb inner (h.2.2.2.2.2 hl) (fun e he => hn e (by simp [effsOf, he]))
+        exact ihb inner (h.2.2.2.2.2 hl) hcs.2 (fun e he => hn e (by simp [effsOf, he]))
   | «show» c a b iha ihb =>
-    intro t h hn
+    intro t h hcs hn
     cases t <;> simp only [GoodM] at h
     next e m c' a' b' left inner =>
+      simp only [View.coreS, Bool.and_eq_true] at hcs
       have hc := h.2.2.2.1.cur_idle hr (hn e (by simp [effsOf]))
       -- the effect reads the memo; the memo's from-scratch value is the truth value of the condition
       have hmv : st.env m = evalPure st.env (showBody c) := specVal_memo hr.wf st.rs h.2.2.2.2.1.2.2
@@ -136,20 +140,20 @@ theorem GoodM.serialize_eq {K : Nat} {st : St} (hr : RM K st) :
       | true =>
         rw [hl] at hc
         rw [← hc]; simp only [if_true]
-        exact iha inner (h.2.2.2.2.2.2.1 hl) (fun e he => hn e (by simp [effsOf, he]))
+        exact iha inner (h.2.2.2.2.2.2.1 hl) hcs.1 (fun e he => hn e (by simp [effsOf, he]))
       | false =>
         rw [hl] at hc
         rw [← hc]; simp only [Bool.false_eq_true, if_false]
-        exact ihb inner (h.2.2.2.2.2.2.2 hl) (fun e he => hn e (by simp [effsOf, he]))
+        exact ihb inner (h.2.2.2.2.2.2.2 hl) hcs.2 (fun e he => hn e (by simp [effsOf, he]))
   | forKeyed sel lists =>
-    intro t h hn
+    intro t h _ hn
     cases t <;> simp only [GoodM] at h
     next e sel' lists' ks texts =>
       have := h.2.2.1.cur_idle hr (hn e (by simp [effsOf]))
       simp only [RView.serialize, render, forRows_eq h.2.2.2, this]
-  | scope sid d kid _ => intro t h _; cases t <;> simp only [GoodM] at h
-  | forRows en sel lists row _ => intro t h _; cases t <;> simp only [GoodM] at h
-  | eb kid _ => intro t h _; cases t <;> simp only [GoodM] at h
-  | res c x => intro t h _; cases t <;> simp only [GoodM] at h
+  | scope sid d kid _ => intro t h _ _; cases t <;> simp only [GoodM] at h
+  | forRows en sel lists row _ => intro t h _ _; cases t <;> simp only [GoodM] at h
+  | eb kid _ => intro t _ hc; simp [View.coreS] at hc
+  | res c x => intro t _ hc; simp [View.coreS] at hc
 
 end Leptos.RView
